@@ -52,7 +52,9 @@ func GetServerTLSConfig(serverConfig TLSConfig, logger log.Logger) (tlsConfig *t
 
 	tlsConfig = auth.NewEmptyTLSConfig()
 	if !serverConfig.SkipCAVerification {
-		tlsConfig.ClientAuth = tls.RequireAnyClientCert
+		// The client certificate must chain to the configured CA. RequireAnyClientCert only demands that some
+		// certificate is sent and leaves verification to VerifyPeerCertificate, which below only logs.
+		tlsConfig.ClientAuth = tls.RequireAndVerifyClientCert
 		tlsConfig.ClientCAs, err = fetchCACert(serverConfig.RemoteCAPath)
 		if err != nil {
 			return nil, fmt.Errorf("failed to read CACert from %s: %w", serverConfig.RemoteCAPath, err)
